@@ -824,6 +824,39 @@ func runOne(seed uint64, n int, out *bufio.Writer) error {
 		as = append(as, fmt.Sprintf("%d.%d", a.b, a.i))
 	}
 	fmt.Fprintf(out, "W\t%d\t%s\t%d\t%d\t%s\n", n, hx([]byte(s.pass)), warm, pendingHeight, strings.Join(as, ","))
+	// a fixed opening (the shapes of the recorded findings): sign (stays unlocked), a wrong attempt
+	// with the empty passphrase, export, reveal, removal check, reveal, lock
+	{
+		a := s.addrs[0]
+		step := func(kind, pass string) {
+			var err error
+			var p bool
+			hl := 0
+			var ai *ainfo
+			switch kind {
+			case "sh":
+				hl, ai = 32, a
+				hash := r.Bytes(32)
+				err, p = guard(func() error { _, e := s.wm.SignHash(a.pub, hash, []byte(pass)); return e })
+			case "ex":
+				err, p = guard(func() error { _, e := s.wm.ExportWallet(s.id, pass); return e })
+			case "mn":
+				err, p = guard(func() error { _, _, e := s.wm.GetMnemonic(s.id, pass); return e })
+			case "ck":
+				err, p = guard(func() error { return s.ks.CheckPrivPassphrase(s.id, []byte(pass)) })
+			}
+			s.emitO(kind, pass, ai, hl, "", err, p)
+		}
+		step("sh", s.pass)
+		step("mn", "")
+		step("ex", s.pass)
+		step("mn", s.pass)
+		step("ck", s.pass)
+		step("mn", s.pass)
+		s.ks.ClearPrivKey()
+		s.emitO("cl", "", nil, 0, "", nil, false)
+		step("mn", s.pass+"\x00")
+	}
 	ncase := 10 + r.Intn(8)
 	for k := 0; k < ncase; k++ {
 		if r.Chance(35) {
